@@ -157,6 +157,10 @@ impl Ctx {
     pub fn distinct<T: Hash + ?Sized>(&mut self, t: &T) {
         self.distinct.insert(hash_of(t));
     }
+    /// As `distinct`; true when the element was not seen before by this worker.
+    pub fn distinct_new<T: Hash + ?Sized>(&mut self, t: &T) -> bool {
+        self.distinct.insert(hash_of(t))
+    }
     /// Records an observed outcome class (small vocabulary; reported with counts).
     pub fn outcome(&mut self, o: &str) {
         *self.outcomes.entry(o.to_string()).or_default() += 1;
